@@ -9,6 +9,7 @@ import (
 
 	"fpcheck/core"
 
+	"golang.org/x/tools/go/cfg"
 	"golang.org/x/tools/go/packages"
 )
 
@@ -758,4 +759,180 @@ func TagExact(c *core.Ctx, rule string, pkgs []*packages.Package) {
 		}
 	}
 	c.Floor(rule, "discovery functions with a substring pre-filter", n, 4)
+}
+
+// JSONFresh (C15): MarshalJSON hands its caller a slice the caller owns. Returning a package-level byte slice lets a
+// caller that reuses the buffer (append(b[:0], …)) rewrite what every later encoding emits.
+func JSONFresh(c *core.Ctx, rule string) {
+	c.Rule(rule, "no MarshalJSON method of the library returns a package-level []byte variable (directly or sliced): the bytes returned are freshly made on every call, so no caller can alter a later encoding")
+	n := 0
+	for _, fb := range funcBodies(c, c.Pkgs) {
+		if fb.Lit != nil || fb.Decl.Recv == nil || fb.Decl.Name.Name != "MarshalJSON" {
+			continue
+		}
+		if containsStr(fb.Pkg.PkgPath, "/cmd/") || containsStr(fb.Pkg.PkgPath, "/internal/generator") {
+			continue
+		}
+		info := fb.Pkg.TypesInfo
+		n++
+		var bad ast.Expr
+		ast.Inspect(fb.Body, func(x ast.Node) bool {
+			ret, ok := x.(*ast.ReturnStmt)
+			if !ok || len(ret.Results) == 0 || bad != nil {
+				return true
+			}
+			e := ast.Unparen(ret.Results[0])
+			if se, ok := e.(*ast.SliceExpr); ok {
+				e = ast.Unparen(se.X)
+			}
+			var v *types.Var
+			switch y := e.(type) {
+			case *ast.Ident:
+				v, _ = info.Uses[y].(*types.Var)
+			case *ast.SelectorExpr:
+				v, _ = info.Uses[y.Sel].(*types.Var)
+			}
+			if v != nil && !v.IsField() && v.Pkg() != nil && v.Parent() == v.Pkg().Scope() {
+				if _, isSlice := v.Type().Underlying().(*types.Slice); isSlice {
+					bad = ret.Results[0]
+				}
+			}
+			return true
+		})
+		if bad != nil {
+			c.Add(rule, fb.Name, bad.Pos(), core.Violated, fb.Name+" returns the package-level slice "+exprString(bad)+": the caller shares its backing array with every later call — reusing the returned buffer changes what the type encodes to from then on")
+		} else {
+			c.Add(rule, fb.Name, fb.Decl.Pos(), core.Discharged, "returns no package-level slice")
+		}
+	}
+	c.Floor(rule, "MarshalJSON methods", n, 4)
+}
+
+// PtrDeref (C09, C10): a binary instance over pointers answers for nil operands. Every dereference of a pointer
+// parameter of the closure is reached only through a comparison of that parameter with nil.
+func PtrDeref(c *core.Ctx, rule string, pkgs []*packages.Package) {
+	c.Rule(rule, "in every binary closure func(a, b *T) of the instance packages, each dereference *p of a parameter is reached only through a condition that compares that same parameter with nil (go/cfg, short-circuit aware): the order/equality is defined for nil operands on either side instead of panicking")
+	n := 0
+	for _, bc := range binClosures(c, pkgs) {
+		info := bc.fb.Pkg.TypesInfo
+		for _, po := range []types.Object{bc.a, bc.b} {
+			if _, isPtr := po.Type().Underlying().(*types.Pointer); !isPtr {
+				continue
+			}
+			derefs := nodeContains(bc.fb.Body, false, func(x ast.Node) bool {
+				se, ok := x.(*ast.StarExpr)
+				return ok && objOf(info, se.X) == po
+			})
+			if !derefs {
+				continue
+			}
+			n++
+			key := bc.fb.Name + "/*" + po.Name()
+			// the right operand of && / || runs only when the left one allowed it
+			shortCircuited := map[ast.Node]bool{}
+			nilTest := func(nd ast.Node) bool {
+				return nodeContains(nd, false, func(x ast.Node) bool {
+					be, ok := x.(*ast.BinaryExpr)
+					return ok && (be.Op == token.EQL || be.Op == token.NEQ) &&
+						(objOf(info, be.X) == po && isNilIdent(info, be.Y) || objOf(info, be.Y) == po && isNilIdent(info, be.X))
+				})
+			}
+			ast.Inspect(bc.fb.Body, func(x ast.Node) bool {
+				if be, ok := x.(*ast.BinaryExpr); ok && (be.Op == token.LOR || be.Op == token.LAND) && nilTest(be.X) {
+					ast.Inspect(be.Y, func(y ast.Node) bool {
+						if y != nil {
+							shortCircuited[y] = true
+						}
+						return true
+					})
+				}
+				return true
+			})
+			target := func(nd ast.Node) bool {
+				return nodeContains(nd, false, func(x ast.Node) bool {
+					if shortCircuited[x] {
+						return false
+					}
+					se, ok := x.(*ast.StarExpr)
+					return ok && objOf(info, se.X) == po
+				})
+			}
+			guard := func(nd ast.Node) bool { return isCondNode(nd) && nilTest(nd) }
+			g := cfg.New(bc.fb.Body, mayReturn(c, info))
+			if len(g.Blocks) == 0 {
+				continue
+			}
+			if hit := unguardedReach(g.Blocks[0], -1, target, guard); hit != nil {
+				c.Add(rule, key, hit.Pos(), core.Violated, "*"+po.Name()+" is dereferenced at "+c.RelPos(hit.Pos())+" on a path that never compared "+po.Name()+" with nil: the instance panics for a nil operand on that side instead of ordering / comparing it")
+			} else {
+				c.Add(rule, key, bc.fb.Body.Pos(), core.Discharged, "every dereference follows a nil test of the same parameter")
+			}
+		}
+	}
+	c.Floor(rule, "pointer parameters dereferenced in binary closures", n, 2)
+}
+
+// BothSizes (C09): an equality over two containers that walks one of them and looks the elements up in the other
+// proves inclusion only; equality needs the sizes of both.
+func BothSizes(c *core.Ctx, rule string, pkgs []*packages.Package) {
+	c.Rule(rule, "a binary Eq closure over containers (fp.Map / fp.Set / fp.Seq / Go map / slice) that iterates one operand (Iterator / ForAll / Exists / range / Foreach) consults the size of both operands (Size() / len): inclusion of a in b is not equality, and is not symmetric")
+	n := 0
+	for _, bc := range binClosures(c, pkgs) {
+		if bc.res == nil || !types.Identical(bc.res, types.Typ[types.Bool]) {
+			continue
+		}
+		isContainer := func(t types.Type) bool {
+			if isNamed(t, "fp", "Map") || isNamed(t, "fp", "Set") || isNamed(t, "fp", "Seq") {
+				return true
+			}
+			switch t.Underlying().(type) {
+			case *types.Map, *types.Slice:
+				return !isNamed(t, "fp", "Seq")
+			}
+			return false
+		}
+		if !isContainer(bc.a.Type()) || !isContainer(bc.b.Type()) {
+			continue
+		}
+		info := bc.fb.Pkg.TypesInfo
+		iterates := nodeContains(bc.fb.Body, true, func(x ast.Node) bool {
+			switch s := x.(type) {
+			case *ast.RangeStmt:
+				o := objOf(info, s.X)
+				return o == bc.a || o == bc.b
+			case *ast.CallExpr:
+				if se, ok := ast.Unparen(s.Fun).(*ast.SelectorExpr); ok {
+					switch se.Sel.Name {
+					case "Iterator", "ForAll", "Exists", "Foreach":
+						o := objOf(info, se.X)
+						return o == bc.a || o == bc.b
+					}
+				}
+			}
+			return false
+		})
+		if !iterates {
+			continue
+		}
+		n++
+		sized := func(po types.Object) bool {
+			return nodeContains(bc.fb.Body, true, func(x ast.Node) bool {
+				call, ok := x.(*ast.CallExpr)
+				if !ok {
+					return false
+				}
+				if (isBuiltinCall(info, call, "len")) && len(call.Args) == 1 && objOf(info, call.Args[0]) == po {
+					return true
+				}
+				se, ok := ast.Unparen(call.Fun).(*ast.SelectorExpr)
+				return ok && se.Sel.Name == "Size" && objOf(info, se.X) == po
+			})
+		}
+		if sized(bc.a) && sized(bc.b) {
+			c.Add(rule, bc.fb.Name, bc.fb.Body.Pos(), core.Discharged, "both sizes consulted")
+		} else {
+			c.Add(rule, bc.fb.Name, bc.fb.Body.Pos(), core.Violated, "the equality walks one container and looks its elements up in the other without comparing the sizes of both: a strict sub-container is Eqv to its super-container in one direction only (not symmetric, not an equivalence)")
+		}
+	}
+	c.Floor(rule, "container equalities that iterate", n, 2)
 }
